@@ -5,5 +5,5 @@ CONSTANTS
   MaxChunk = 17
   Drain = TRUE
   KeepPartial = FALSE
-INVARIANTS PrefixI AtRestI BoundedI
+INVARIANTS PrefixI
 CHECK_DEADLOCK FALSE
